@@ -238,6 +238,7 @@ class Project:
         self.class_of_node = {}
         self.parse_errors = []
         self.canon_counts = {}  # sa/canon.py rewrite -> applications
+        self.moved_anchors = []  # (kind, name, module it was expected in, module it was found in)
         self._load()
         self._index()
         self._bind()
@@ -634,9 +635,36 @@ class Project:
             return exact[0]
         if len(hits) == 1:
             return hits[0]
+        if not hits and module is not None:
+            # the function moved to another module of the package: the old module re-exports it (`from ._x import f`),
+            # or there is exactly one function of that name anywhere
+            moved = self._moved_anchor("func", suffix, module)
+            if moved is not None:
+                return moved
         if not hits:
             raise AnalysisError(f"anchor vanished: function {suffix!r}" + (f" in module *{module}" if module else ""))
         raise AnalysisError(f"anchor ambiguous: function {suffix!r} matches {[f.qualname for f in hits]}")
+
+    def _moved_anchor(self, kind, name, module):
+        top = name.split(".")[0]
+        for modname, m in self.modules.items():
+            if modname.endswith(module):
+                r = self.resolve_module_attr(modname, top)
+                if r and r[0] == kind and "." not in name:
+                    self.moved_anchors.append((kind, name, module, r[1].module.name))
+                    return r[1]
+                if r and r[0] in ("func", "class") and "." in name:
+                    q = f"{r[1].module.name}::{name}"
+                    hit = self.funcs.get(q) if kind == "func" else self.classes.get(q)
+                    if hit is not None:
+                        self.moved_anchors.append((kind, name, module, r[1].module.name))
+                        return hit
+        pool = self.funcs if kind == "func" else self.classes
+        cands = [v for q, v in pool.items() if q.split("::")[1] == name]
+        if len(cands) == 1:
+            self.moved_anchors.append((kind, name, module, cands[0].module.name))
+            return cands[0]
+        return None
 
     def funcs_named(self, suffix, module=None):
         return [
@@ -649,6 +677,10 @@ class Project:
         hits = [c for q, c in self.classes.items() if q.split("::")[1] == name and (module is None or c.module.name.endswith(module))]
         if len(hits) == 1:
             return hits[0]
+        if not hits and module is not None:
+            moved = self._moved_anchor("class", name, module)
+            if moved is not None:
+                return moved
         if not hits:
             raise AnalysisError(f"anchor vanished: class {name!r}" + (f" in module *{module}" if module else ""))
         raise AnalysisError(f"anchor ambiguous: class {name!r} matches {[c.qualname for c in hits]}")
